@@ -1,6 +1,8 @@
 package main
 
 import (
+	"go/types"
+
 	"golang.org/x/tools/go/ssa"
 )
 
@@ -10,6 +12,22 @@ const modelsPath = "github.com/go-kid/ioc/zzverif/models"
 func (x *Exec) libStub(fn *ssa.Function, args []Val, site string) (Val, bool) {
 	name := fn.String()
 	switch name {
+	case "encoding/json.Marshal":
+		// only the two values the container itself produces here: an empty map and an empty list
+		iv, _ := args[0].(IfaceV)
+		switch v := iv.V.(type) {
+		case *MapV:
+			if v != nil && len(v.Ent) == 0 {
+				x.stubsUsed["encoding/json.Marshal (empty map/list only)"] = true
+				return TupleV{x.convert(cstr("{}"), types.Typ[types.String], types.NewSlice(types.Typ[types.Byte])), IfaceV{}}, true
+			}
+		case SliceV:
+			if v.A != nil && v.Len == 0 {
+				x.stubsUsed["encoding/json.Marshal (empty map/list only)"] = true
+				return TupleV{x.convert(cstr("[]"), types.Typ[types.String], types.NewSlice(types.Typ[types.Byte])), IfaceV{}}, true
+			}
+		}
+		panic(unsupported{"encoding/json.Marshal of a non-empty value"})
 	case modelsPath + ".Unmodelled":
 		s, _ := args[0].(StrV).concrete()
 		panic(unsupported{"model gap: " + s})
